@@ -252,9 +252,12 @@ func vDeletesAcrossRestart(fault bool) {
 	kv := &vmodel.KV{}
 	ix, err := New(kv)
 	vrt.Assert(err == nil, "index.New succeeds")
-	nodes := []blob.Ref{blob.VerifSmallRef(1)}
-	all := []blob.Ref{blob.VerifSmallRef(1)}
+	// possible targets: a permanode, a file schema blob (not deletable: a delete claim on it is
+	// indexed but has no effect), and every delete claim indexed so far
+	nodes := []blob.Ref{blob.VerifSmallRef(1), blob.VerifSmallRef(2)}
+	all := []blob.Ref{blob.VerifSmallRef(1), blob.VerifSmallRef(2)}
 	kv.Set("meta:"+nodes[0].String(), "100|application/json; camliType=permanode")
+	kv.Set("meta:"+nodes[1].String(), "100|application/json; camliType=file")
 	kv.Set("signerkeyid:"+blob.VerifSmallRef(200).String(), "KEY1") // written by populateClaim for every claim of this signer
 	vr := &jsonsign.VerifyRequest{SignerKeyId: "KEY1", CamliSigner: blob.VerifSmallRef(200)}
 	failAt := 0
@@ -266,11 +269,11 @@ func vDeletesAcrossRestart(fault bool) {
 		t := nodes[vrt.Choice(len(nodes))] // targets the permanode or an earlier (indexed) delete claim
 		when := time.Unix(int64(1000+10*i), 0)
 		cl := vDeleteClaim(d, t, when)
-		// the rows and cache updates of a received delete claim, by the real populateDeleteClaim + commit
+		// the rows and cache updates of a received delete claim, by the real populateClaim
+		// (populateDeleteClaim, noteDelete) + commit
 		mm := &mutationMap{kv: map[string]string{"meta:" + d.String(): "100|application/json; camliType=claim"}}
-		perr := ix.populateDeleteClaim(context.Background(), cl, vr, mm)
-		vrt.Assert(perr == nil, "populateDeleteClaim succeeds when the target is indexed")
-		mm.noteDelete(cl)
+		perr := ix.populateClaim(context.Background(), nil, cl.Blob(), vr, mm)
+		vrt.Assert(perr == nil, "populateClaim of a delete claim succeeds when the target is indexed")
 		if i == failAt {
 			kv.Fault = func(op string) bool { return op == "commit" }
 			cerr := ix.commit(mm)
@@ -406,9 +409,8 @@ func VK06cDeleteBeforeTarget() {
 			"meta:" + d.String():             "100|application/json; camliType=claim",
 			"signerkeyid:" + signer.String(): "KEY1",
 			"have:" + d.String():             "100|indexed"}}
-		perr := ix.populateDeleteClaim(ctx, cl, vr, mm)
-		vrt.Assert(perr == nil, "populateDeleteClaim succeeds once the target is indexed")
-		mm.noteDelete(cl)
+		perr := ix.populateClaim(ctx, nil, cl.Blob(), vr, mm) // populateDeleteClaim + noteDelete
+		vrt.Assert(perr == nil, "populateClaim of the delete claim succeeds once the target is indexed")
 		return mm
 	}
 	if vrt.Bool() {
